@@ -1,3 +1,366 @@
 import TT.Model.Icmp
+/-! helper lemmas for `TT/Props/C11.lean` -/
 namespace TT.Icmp
+open TT TT.Bytes
+
+/-! ### checksum -/
+
+theorem fold16_mod (n : Nat) : fold16 n % 65535 = n % 65535 := by
+  induction n using Nat.strongRecOn with
+  | _ n ih =>
+    rw [fold16.eq_1]
+    split
+    · rfl
+    · rw [ih _ (by omega)]; omega
+
+theorem fold16_lt (n : Nat) : fold16 n < 65536 := by
+  induction n using Nat.strongRecOn with
+  | _ n ih =>
+    rw [fold16.eq_1]
+    split
+    · assumption
+    · exact ih _ (by omega)
+
+theorem fold16_le (n : Nat) : fold16 n ≤ n := by
+  induction n using Nat.strongRecOn with
+  | _ n ih =>
+    rw [fold16.eq_1]
+    split
+    · exact Nat.le_refl _
+    · have := ih (n / 65536 + n % 65536) (by omega); omega
+
+theorem fold16_pos (n : Nat) (h : 0 < n) : 0 < fold16 n := by
+  induction n using Nat.strongRecOn with
+  | _ n ih =>
+    rw [fold16.eq_1]
+    split
+    · assumption
+    · exact ih _ (by omega) (by omega)
+
+theorem fold16_eq_ffff (n : Nat) (h : 0 < n) (hm : n % 65535 = 0) : fold16 n = 65535 := by
+  have h1 := fold16_mod n
+  have h2 := fold16_lt n
+  have h3 := fold16_pos n h
+  omega
+
+theorem sumWords_le (bs : Bytes) (hw : ∀ x ∈ bs, x < 256) :
+    sumWords bs ≤ 65535 * ((bs.length + 1) / 2) := by
+  fun_induction sumWords bs with
+  | case1 => simp
+  | case2 a =>
+    have := hw a (by simp)
+    simp; omega
+  | case3 a b rest ih =>
+    have ha := hw a (by simp)
+    have hb := hw b (by simp)
+    have := ih (fun x hx => hw x (by simp [hx]))
+    simp only [List.length_cons]
+    omega
+
+theorem sumWords32_eq (bs : Bytes) (acc : Nat) (h : acc + sumWords bs < 4294967296) :
+    sumWords32 bs acc = acc + sumWords bs := by
+  fun_induction sumWords32 bs acc with
+  | case1 acc => simp [sumWords]
+  | case2 a acc => simp [sumWords] at *; omega
+  | case3 a b rest acc ih =>
+    simp only [sumWords] at h ⊢
+    rw [ih (by omega)]; omega
+
+theorem u16be_sum (c : Nat) (h : c < 65536) : c / 256 % 256 * 256 + c % 256 = c := by omega
+
+
+theorem sumWords_hdr (t c : Nat) (rest : Bytes) (hc : c < 65536) :
+    sumWords (t :: 0 :: (u16be c ++ rest)) = t * 256 + c + sumWords rest := by
+  simp only [u16be, sumWords, List.cons_append, List.nil_append]; omega
+
+theorem sumWords_hdr0 (t : Nat) (rest : Bytes) :
+    sumWords (t :: 0 :: 0 :: 0 :: rest) = t * 256 + sumWords rest := by
+  simp [sumWords]
+
+theorem sumWords32_exact (bs : Bytes) (hw : ∀ x ∈ bs, x < 256) (hl : bs.length ≤ 131070) :
+    sumWords32 bs 0 = sumWords bs := by
+  have := sumWords_le bs hw
+  rw [sumWords32_eq] <;> omega
+
+/-! ### byte primitives, request decoder -/
+
+theorem getU8_ok (p : Bytes) (h : 1 ≤ p.length) : ∃ a, getU8 p = .ok (a, p.drop 1) := by
+  match p, h with
+  | a :: rest, _ => exact ⟨a, rfl⟩
+
+theorem getU16_ok (p : Bytes) (h : 2 ≤ p.length) : ∃ a, getU16 p = .ok (a, p.drop 2) := by
+  match p, h with
+  | a :: b :: rest, _ => exact ⟨_, rfl⟩
+
+theorem getU32_ok (p : Bytes) (h : 4 ≤ p.length) : ∃ a, getU32 p = .ok (a, p.drop 4) := by
+  match p, h with
+  | a :: b :: c :: d :: rest, _ => exact ⟨_, rfl⟩
+
+theorem advance_ok (n : Nat) (p : Bytes) (h : n ≤ p.length) : advance n p = .ok (p.drop n) := by
+  simp [advance, h]
+
+theorem getFixedIp_ok (p : Bytes) (h : 16 ≤ p.length) : ∃ a, getFixedIp p = .ok (a, p.drop 16) := by
+  simp [getFixedIp, splitTo, h]
+
+theorem parseRequest_ok (raw : Bytes) (h : 23 ≤ raw.length) : ∃ r, parseRequest raw = .ok r := by
+  unfold parseRequest
+  obtain ⟨a, ha⟩ := getU16_ok raw (by omega)
+  rw [ha]; dsimp only
+  obtain ⟨b, hb⟩ := getFixedIp_ok (raw.drop 2) (by rw [List.length_drop]; omega)
+  rw [hb]; dsimp only
+  obtain ⟨c, hc⟩ := getU16_ok ((raw.drop 2).drop 16) (by simp only [List.length_drop]; omega)
+  rw [hc]; dsimp only
+  obtain ⟨d, hd⟩ := getU8_ok (((raw.drop 2).drop 16).drop 2) (by simp only [List.length_drop]; omega)
+  rw [hd]; dsimp only
+  obtain ⟨e, he⟩ := getU16_ok ((((raw.drop 2).drop 16).drop 2).drop 1) (by simp only [List.length_drop]; omega)
+  rw [he]
+  exact ⟨_, rfl⟩
+
+theorem decoder_step_safe_lem (buffer chunk : Bytes) (hb : buffer.length < reqSize) :
+    (∃ b', onMessageChunk buffer chunk = .wantMore b' ∧ b' = buffer ++ chunk ∧ b'.length < reqSize) ∨
+    (∃ raw tail, onMessageChunk buffer chunk = .complete raw tail ∧ raw.length = reqSize ∧
+        buffer ++ chunk = raw ++ tail) := by
+  unfold onMessageChunk
+  have h23 : reqSize = 23 := rfl
+  generalize reqSize = N at *
+  by_cases hc : (!buffer.isEmpty || decide (buffer.length + chunk.length < N)) = true
+  · rw [if_pos hc]
+    by_cases hlt : buffer.length + chunk.length < N
+    · left
+      have hn : min chunk.length (N - buffer.length) = chunk.length := by omega
+      simp only [hn, List.take_length, List.drop_length, List.length_append]
+      rw [if_neg (by simp; omega), if_pos hlt, if_neg (by simp)]
+      exact ⟨_, rfl, rfl, by simp; omega⟩
+    · right
+      have hn : min chunk.length (N - buffer.length) = N - buffer.length := by omega
+      have hlen : (buffer ++ List.take (N - buffer.length) chunk).length = N := by
+        simp [List.length_append, List.length_take]; omega
+      simp only [hn, hlen]
+      rw [if_neg (by simp), if_neg (by omega)]
+      exact ⟨_, _, rfl, hlen, by simp⟩
+  · right
+    rw [if_neg hc]
+    simp at hc
+    obtain ⟨h1, h2⟩ := hc
+    subst h1
+    simp at h2
+    refine ⟨_, _, rfl, ?_, by simp⟩
+    rw [List.length_take]; omega
+
+theorem specDecode_short (F : Nat) (s : Bytes) (h : s.length < 23) : specDecode F s = [] := by
+  cases F <;> simp [specDecode, reqSize, h]
+
+theorem specDecode_long (F : Nat) (raw rest : Bytes) (r : Request) (h : raw.length = 23)
+    (hr : parseRequest raw = .ok r) : specDecode (F + 1) (raw ++ rest) = r :: specDecode F rest := by
+  have h23 : reqSize = 23 := rfl
+  have htake : (raw ++ rest).take reqSize = raw := by rw [h23, ← h]; simp
+  have hdrop : (raw ++ rest).drop reqSize = rest := by rw [h23, ← h]; simp
+  have hnl : ¬ (raw ++ rest).length < reqSize := by
+    rw [h23, List.length_append]; omega
+  simp only [specDecode, if_neg hnl, htake, hr, hdrop]
+
+theorem decodeStream_gen (fuel : Nat) : ∀ (buffer : Bytes) (chunks : List Bytes) (acc : List Request) (F : Nat),
+    buffer.length < 23 → fuel ≥ chunks.length + chunks.flatten.length →
+    F ≥ (buffer ++ chunks.flatten).length / 23 →
+    decodeStream fuel buffer chunks acc =
+      some (acc.reverse ++ specDecode F (buffer ++ chunks.flatten),
+        (buffer ++ chunks.flatten).drop (23 * ((buffer ++ chunks.flatten).length / 23))) := by
+  induction fuel with
+  | zero =>
+    intro buffer chunks acc F hb hf hF
+    have : chunks = [] := by
+      cases chunks with
+      | nil => rfl
+      | cons c cs => simp at hf
+    subst this
+    simp only [decodeStream, List.flatten_nil, List.append_nil]
+    rw [specDecode_short _ _ hb, Nat.div_eq_of_lt hb]; simp
+  | succ fuel ih =>
+    intro buffer chunks acc F hb hf hF
+    cases chunks with
+    | nil =>
+      simp only [decodeStream, List.flatten_nil, List.append_nil]
+      rw [specDecode_short _ _ hb, Nat.div_eq_of_lt hb]; simp
+    | cons chunk rest =>
+      simp only [List.flatten_cons, List.length_cons, List.length_append] at hf hF
+      rcases decoder_step_safe_lem buffer chunk hb with ⟨b', h1, h2, h3⟩ | ⟨raw, tail, h1, h2, h3⟩
+      · simp only [decodeStream, h1]
+        subst h2
+        rw [ih _ _ _ F h3 (by omega) (by simp only [List.length_append] at *; omega)]
+        simp only [List.flatten_cons, List.append_assoc]
+      · replace h2 : raw.length = 23 := h2
+        obtain ⟨r, hr⟩ := parseRequest_ok raw (by omega)
+        simp only [decodeStream, h1, hr]
+        have hlen : buffer.length + chunk.length = raw.length + tail.length := by
+          have := congrArg List.length h3; simpa using this
+        have hs : buffer ++ (chunk :: rest).flatten = raw ++ (tail ++ rest.flatten) := by
+          rw [List.flatten_cons, ← List.append_assoc, h3, List.append_assoc]
+        have hfl : (if tail.isEmpty then rest else tail :: rest).flatten = tail ++ rest.flatten := by
+          cases tail <;> simp
+        have hfuel : fuel ≥ (if tail.isEmpty then rest else tail :: rest).length
+            + (tail.length + rest.flatten.length) := by
+          cases tail with
+          | nil => simp only [List.length_nil, List.isEmpty_nil, if_true] at hlen ⊢; omega
+          | cons t ts =>
+            simp only [List.length_cons, List.isEmpty_cons, Bool.false_eq_true, if_false] at hlen ⊢; omega
+        obtain ⟨F', rfl⟩ : ∃ F', F = F' + 1 := ⟨F - 1, by omega⟩
+        rw [ih [] _ (r :: acc) F' (by simp) (by rw [hfl, List.length_append]; exact hfuel)
+          (by rw [hfl]; simp only [List.nil_append, List.length_append]; omega)]
+        rw [hs, hfl, specDecode_long _ _ _ _ h2 hr]
+        simp only [List.nil_append, List.reverse_cons, List.append_assoc, List.cons_append]
+        congr 2
+        have hk : (raw ++ (tail ++ rest.flatten)).length / 23
+            = (tail ++ rest.flatten).length / 23 + 1 := by
+          simp only [List.length_append]; omega
+        have hdrop : (raw ++ (tail ++ rest.flatten)).drop 23 = tail ++ rest.flatten := by
+          rw [← h2]; simp
+        rw [hk, Nat.mul_add, Nat.mul_one, Nat.add_comm, ← List.drop_drop, hdrop]
+/-! ### ICMP parsers -/
+
+theorem afterType_eq (p : Bytes) (k : Nat → Bytes → Deser) (h : 3 ≤ p.length) :
+    ∃ code, afterType p k = k code (p.drop 3) := by
+  unfold afterType
+  obtain ⟨a, ha⟩ := getU8_ok p (by omega)
+  rw [ha]; dsimp only
+  have : splitOff 2 (p.drop 1) = .ok ((p.drop 1).drop 2, (p.drop 1).take 2) := by
+    simp only [splitOff, List.length_drop]; rw [if_pos (by omega)]
+  rw [this]; dsimp only
+  exact ⟨a, by rw [List.drop_drop]⟩
+
+theorem parseEcho_ne_panic (t c : Nat) (p : Bytes) (h : 4 ≤ p.length) : parseEcho t c p ≠ .panic := by
+  unfold parseEcho
+  obtain ⟨a, ha⟩ := getU16_ok p (by omega)
+  rw [ha]; dsimp only
+  obtain ⟨b, hb⟩ := getU16_ok (p.drop 2) (by simp only [List.length_drop]; omega)
+  rw [hb]; simp
+
+theorem parseEcho_eq (t c : Nat) (p : Bytes) (h : 4 ≤ p.length) : ∃ e, parseEcho t c p = .ok (.echo t e) := by
+  unfold parseEcho
+  obtain ⟨a, ha⟩ := getU16_ok p (by omega)
+  rw [ha]; dsimp only
+  obtain ⟨b, hb⟩ := getU16_ok (p.drop 2) (by simp only [List.length_drop]; omega)
+  rw [hb]; exact ⟨_, rfl⟩
+
+theorem parseErr_ne_panic (t : Nat) (f : Nat → Bool) (c : Nat) (p : Bytes) (h : 4 ≤ p.length) :
+    parseErr t f c p ≠ .panic := by
+  unfold parseErr
+  split
+  · simp
+  · simp only [splitOff]; rw [if_pos h]; simp
+
+theorem parseTimestamp_ne_panic (t c : Nat) (p : Bytes) (h : 16 ≤ p.length) : parseTimestamp t c p ≠ .panic := by
+  unfold parseTimestamp
+  obtain ⟨a, ha⟩ := getU16_ok p (by omega)
+  rw [ha]; dsimp only
+  obtain ⟨b, hb⟩ := getU16_ok (p.drop 2) (by simp only [List.length_drop]; omega)
+  rw [hb]; dsimp only
+  obtain ⟨c, hc⟩ := getU32_ok ((p.drop 2).drop 2) (by simp only [List.length_drop]; omega)
+  rw [hc]; dsimp only
+  obtain ⟨d, hd⟩ := getU32_ok (((p.drop 2).drop 2).drop 4) (by simp only [List.length_drop]; omega)
+  rw [hd]; dsimp only
+  obtain ⟨e, he⟩ := getU32_ok ((((p.drop 2).drop 2).drop 4).drop 4) (by simp only [List.length_drop]; omega)
+  rw [he]; simp
+
+theorem parseInformation_ne_panic (t c : Nat) (p : Bytes) (h : 4 ≤ p.length) : parseInformation t c p ≠ .panic := by
+  unfold parseInformation
+  obtain ⟨a, ha⟩ := getU16_ok p (by omega)
+  rw [ha]; dsimp only
+  obtain ⟨b, hb⟩ := getU16_ok (p.drop 2) (by simp only [List.length_drop]; omega)
+  rw [hb]; simp
+
+theorem afterType_ne_panic (p : Bytes) (k : Nat → Bytes → Deser) (n : Nat) (h : 3 + n ≤ p.length)
+    (hk : ∀ c q, n ≤ q.length → k c q ≠ .panic) : afterType p k ≠ .panic := by
+  obtain ⟨c, hc⟩ := afterType_eq p k (by omega)
+  rw [hc]; exact hk _ _ (by rw [List.length_drop]; omega)
+
+theorem ite_ne_panic {c : Prop} [Decidable c] {a b : Deser} (ha : c → a ≠ .panic)
+    (hb : ¬c → b ≠ .panic) : (if c then a else b) ≠ .panic := by
+  split
+  · exact ha ‹_›
+  · exact hb ‹_›
+
+theorem skipIpv6Ext_no_panic (fuel : Nat) : ∀ (proto : Nat) (p : Bytes), (skipIpv6Ext fuel proto p).isOk = true := by
+  induction fuel with
+  | zero => intro proto p; rfl
+  | succ fuel ih =>
+    intro proto p
+    unfold skipIpv6Ext
+    split
+    · split
+      · rfl
+      · next hl =>
+        obtain ⟨a, ha⟩ := getU8_ok p (by omega)
+        rw [ha]; dsimp only
+        obtain ⟨b, hb⟩ := getU8_ok (p.drop 1) (by simp only [List.length_drop]; omega)
+        rw [hb]; dsimp only
+        split
+        · rfl
+        · next hl2 =>
+          rw [advance_ok _ _ (by omega)]
+          exact ih _ _
+    · split
+      · split
+        · rfl
+        · next hl =>
+          obtain ⟨a, ha⟩ := getU8_ok p (by omega)
+          rw [ha]; dsimp only
+          rw [advance_ok _ _ (by simp only [List.length_drop]; omega)]
+          exact ih _ _
+      · rfl
+
+theorem quotedEcho_ne_panic (s : Res (Option (Nat × Bytes))) (hs : s.isOk = true) (wp wt : Nat) :
+    quotedEcho s wp wt ≠ .panic := by
+  unfold quotedEcho
+  match s, hs with
+  | .ok none, _ => simp
+  | .ok (some (proto, [])), _ => simp
+  | .ok (some (proto, t :: p)), _ =>
+    dsimp only
+    split
+    · simp
+    · split
+      · simp
+      · next h =>
+        obtain ⟨c, hc⟩ := afterType_eq p (parseEcho wt) (by omega)
+        obtain ⟨e, he⟩ := parseEcho_eq wt c (p.drop 3) (by rw [List.length_drop]; omega)
+        rw [hc, he]; simp
+
+theorem skipIpv4_plain (a1 a2 a3 a4 a5 a6 a7 a8 a10 a11 a12 a13 a14 a15 a16 a17 a18 a19 : Nat) (rest : Bytes) :
+    skipIpv4Header ([69, a1, a2, a3, a4, a5, a6, a7, a8, 1, a10, a11, a12, a13, a14, a15, a16, a17, a18, a19] ++ rest)
+      = .ok (some (1, rest)) := by
+  simp [skipIpv4Header, getU8, advance]
+  rw [if_neg (by omega), if_neg (by omega)]
+
+/-! ### waiter table -/
+
+theorem echoKeyEq_refl (e : Echo) : echoKeyEq e e = true := by
+  simp [echoKeyEq]
+
+theorem recv_fst (t : Table) (req : Echo) (full : Bool) :
+    (t.recv req full).1.deadlines = t.deadlines ∧ ∀ w ∈ (t.recv req full).1.waiters, w ∈ t.waiters := by
+  unfold Table.recv
+  split
+  · simp
+  · split
+    · exact ⟨rfl, fun w hw => (List.mem_filter.mp hw).1⟩
+    · simp
+
+theorem send_waiters_le (t : Table) (c : Nat) (e : Echo) (now timeout : Nat) :
+    (t.send c e now timeout).waiters.length ≤ t.waiters.length + 1 := by
+  simp only [Table.send]
+  split <;> simp
+
+theorem recv_waiters_le (t : Table) (req : Echo) (full : Bool) :
+    (t.recv req full).1.waiters.length ≤ t.waiters.length := by
+  simp only [Table.recv]
+  split
+  · simp
+  · split
+    · exact List.length_filter_le _ _
+    · simp
+
+theorem tick_waiters_le (t : Table) (now : Nat) : (t.tick now).waiters.length ≤ t.waiters.length := by
+  simp only [Table.tick]
+  exact List.length_filter_le _ _
+
 end TT.Icmp
